@@ -53,6 +53,8 @@ func runC14(c *Ctx) {
 	c.RulePrefix = ""
 	transferRecvChecked(c, "R3")
 	requestHeaderVerbatim(c, "R1")
+	filterStatusReportsCommandError(c, "R2")
+	delayedPointersSurviveRounds(c, "R4")
 	fc := p.Fn("commands", "filterCommand")
 	ds := p.Fn("commands", "delayedSmudge")
 	if fc == nil || ds == nil {
